@@ -90,7 +90,7 @@ EDITS = {
     "edit_ins": ("pipe", "in_service", lambda v: ~v), "edit_pn": ("junction", "pn_bar", lambda v: v * 2.0),
     "edit_hc": ("heat_consumer", "controlled_mdot_kg_per_s", lambda v: v * 0.5),
 }
-OPS = list(PF.keys()) + ["user_opts", "user_reset"] + list(EDITS.keys()) + ["restore"]
+OPS = list(PF.keys()) + ["user_opts", "user_iter", "user_reset"] + list(EDITS.keys()) + ["restore"]
 
 
 def applicable(netname, op):
@@ -221,6 +221,8 @@ def apply_ops(net, ops, check=None):
                 check(i, op, before, st)
         elif op == "user_opts":
             pp.set_user_pf_options(net, friction_model="swamee-jain", tol_p=2e-6)
+        elif op == "user_iter":
+            pp.set_user_pf_options(net, iter=35)
         elif op == "user_reset":
             pp.set_user_pf_options(net, reset=True)
         elif op in EDITS:
@@ -235,20 +237,31 @@ def apply_ops(net, ops, check=None):
     return statuses
 
 
+PRE = [None, "user_opts", "user_iter", "user_reset", "restore"] + list(EDITS.keys())
+
+
 def cases(tier):
-    depth = 2 if tier == "quick" else 3
+    """a history is a sequence of steps; a step = optional description/option operation followed by one pipeflow"""
     out = []
     for netname in NETS:
-        ops = [o for o in OPS if applicable(netname, o)]
-        for h in range(1, depth + 1):
-            for seq in itertools.product(ops, repeat=h):
-                if seq[-1] not in PF:
-                    # a history is checked at its pipeflow calls: end with one
-                    continue
-                if h == 3 and tier == "thorough" and not (seq[0] in PF or seq[0] in EDITS):
-                    continue
-                # append the final probes: the description is restored and a plain run is compared with a fresh net
-                out.append({"net": netname, "ops": list(seq)})
+        pfs = [o for o in PF if applicable(netname, o)]
+        pres = [o for o in PRE if o is None or applicable(netname, o)]
+        steps = [(a, b) for a in pres for b in pfs]
+        for first in pfs:
+            out.append({"net": netname, "ops": [first]})
+            for a, b in steps:
+                out.append({"net": netname, "ops": [first] + ([a] if a else []) + [b]})
+        for a in pres[1:]:
+            for b in pfs:
+                out.append({"net": netname, "ops": [a, b]})
+        if tier == "thorough":
+            for first in pfs:
+                for (a, b), (c, d) in itertools.product(steps, repeat=2):
+                    if a is None and c is None:
+                        continue
+                    if not (b in ("hyd", "hyd_update", "seq") and d in ("hyd", "hyd_update", "seq", "bidir", "heat_stored")):
+                        continue
+                    out.append({"net": netname, "ops": [first] + ([a] if a else []) + [b] + ([c] if c else []) + [d]})
     return out
 
 
